@@ -317,7 +317,7 @@ pub fn gen(seed: u64, n: usize, out: &str, tier: &str) {
             }
         }
     }
-    let n_svc_cases = if tier == "quick" { 24 } else { 200 };
+    let n_svc_cases = if tier == "quick" { 14 } else { 200 };
     let per = std::cmp::max(3, n / shapes.len());
     let mut id = 0;
     let mut total = 0;
@@ -344,6 +344,9 @@ pub fn gen(seed: u64, n: usize, out: &str, tier: &str) {
         writeln!(w, "val v={} d=S;S97 adm=1", Val::Str(s).show()).unwrap();
         total += 1;
     }
+    id += 1;
+    // updates of a subset of the fields of an existing row (rows without text included)
+    let (nu, uops) = crate::c04u::gen_cases(&mut w, &mut g, id, if tier == "quick" { 90 } else { 1500 }, if tier == "quick" { 6 } else { 60 });
     w.flush().unwrap();
-    println!("{}", serde_json::json!({"cases": id + 1, "values": total}));
+    println!("{}", serde_json::json!({"cases": id + nu, "values": total, "update_ops": uops}));
 }
